@@ -537,11 +537,9 @@ def fit_to_pdb(df: pd.DataFrame) -> pd.DataFrame:
     current_serial = 0
     last_chain_id_for_serial = None
 
-    # Iterate in the potentially re-sorted order after grouping/mapping
-    # Ensure stable sort order for consistent serial numbering
-    df_fitted.sort_index(
-        inplace=True
-    )  # Sort by original index to maintain original atom order as much as possible
+    # The rows are still in the order of the input table (nothing above re-orders
+    # them); sorting by index labels here would permute tables whose index is not
+    # increasing, e.g. frames concatenated from per-residue pieces.
 
     for index, row in df_fitted.iterrows():
         current_chain_id = row[chain_col]
